@@ -11,6 +11,8 @@
 #include <sstream>
 #include <string>
 #include <vector>
+#include <unistd.h>
+#include "HelperFunctions.hpp"
 
 #include "defines.hpp"
 #include "PS/PhaseSpace.hpp"
